@@ -116,6 +116,25 @@ def run(ck: Check) -> int:
             excl = [R.choice(pats) for _ in range(R.randint(0, 2))] if R.random() < 0.3 else None
             mod, bits = (G, gbits) if use_glob else (F, fbits)
             fl = gen.random_flags(R, bits, 0.3, mod.FORCEUNIX)
+            if R.random() < 0.12:
+                # one body both plain and negated, in both orders, via a list / SPLIT / BRACE (added after seeded change C08e: the
+                # matcher's duplicate filter forgot the polarity, translate() did not)
+                b = R.choice(pats)
+                form = R.randrange(6)
+                fl = (fl | mod.NEGATE) & ~mod.MINUSNEGATE
+                if form == 0:
+                    plist = [b, '!' + b]
+                elif form == 1:
+                    plist = ['!' + b, b]
+                elif form == 2:
+                    plist, fl = ['!' + b, b], fl | mod.NEGATEALL
+                elif form == 3:
+                    plist, fl = [b + '|!' + b], fl | mod.SPLIT
+                elif form == 4:
+                    plist, fl = ['{,!}' + b], fl | mod.BRACE
+                else:
+                    plist = [R.choice(pats), '!' + b, b, '!' + b]
+                sr.histogram['same body both polarities'] = sr.histogram.get('same body both polarities', 0) + 1
             key = (tuple(plist), tuple(excl or ()), fl, use_glob)
             try:
                 with common.time_limit(5):
